@@ -720,6 +720,11 @@ class Interp:
             return v.value is None
         if isinstance(v, Opaque):
             return self.choose(('none-opaque', self._nid(node), v.why), [True, False])
+        if isinstance(v, MatchV) and v.level == 3:
+            # a match object is None exactly when the pattern did not match (same world variable as its truth value)
+            if not self.match_possible(v):
+                return True
+            return not self.choose(('match', v.pattern, v.level), [True, False])
         return False
 
     def ev_BinOp(self, node, env):
@@ -993,7 +998,13 @@ class Interp:
         if isinstance(base, Code):
             return code_of(Part('opaque', 'slice-of-code', node=node))
         if isinstance(base, TokValue):
+            if all(isinstance(x, Const) and (x.value is None or isinstance(x.value, int)) for x in (lo, hi, st)):
+                items = self.iterate(base, node)
+                return TupleV(tuple(items[slice(lo.value, hi.value, st.value)]))
             return Opaque('slice-of-token-value')
+        if isinstance(base, MatchV) and base.level == 1 and all(isinstance(x, Const) for x in (lo, hi, st)):
+            items = self.iterate(base, node)
+            return TupleV(tuple(items[slice(lo.value, hi.value, st.value)]))
         return Opaque('slice')
 
     # ---- iteration -------------------------------------------------------------------------------------------
@@ -1008,6 +1019,10 @@ class Interp:
                 return [self.child(tok, k) for k in range(len(self.symbols_of(tok)))]
             t = self.g.terminals[tok.cls]
             return [GroupStr(tok.cls, t.value_group(k), tok.path) for k in range(t.value_len())]
+        if isinstance(v, MatchV) and v.level == 1:
+            rx = Regex(v.pattern, v.flags)
+            if rx.ngroups > 1:
+                return [GroupStr(f'regex:{v.flags}:' + v.pattern, k, (), '', repr(v.subject)[:40]) for k in range(1, rx.ngroups + 1)]
         if isinstance(v, Opaque):
             return [Opaque(f'elem-of({v.why})')]
         if isinstance(v, Const) and v.value is None:
@@ -1437,6 +1452,10 @@ class Interp:
         if kind == 'matchobj':
             if name == 'group':
                 return self.match_obj_group(recv, args[0] if args else Const(0), node)
+            if name == 'groups':
+                rx = Regex(recv.pattern, recv.flags)
+                return TupleV(tuple(GroupStr(f'regex:{recv.flags}:' + recv.pattern, k, (), '', repr(recv.subject)[:40])
+                                    for k in range(1, rx.ngroups + 1)))
             return Opaque(f'match.{name}')
         if kind == 'str':
             if name == 'join':
